@@ -96,10 +96,20 @@ where
         dtors: RefCell::new(None),
         propagate: Rc::new(std::cell::Cell::new(false)),
     };
-    let ret = f(&scope);
-    scope.propagate.set(true);
-    scope.drop_all();
-    ret
+    // don't join the children while a panic of the body is unwinding: the thread would
+    // count as panicking meanwhile, also for every other coroutine it runs, and the owner
+    // may continue on another thread. catch it, join, raise it again
+    match panic::catch_unwind(panic::AssertUnwindSafe(|| f(&scope))) {
+        Ok(ret) => {
+            scope.propagate.set(true);
+            scope.drop_all();
+            ret
+        }
+        Err(e) => {
+            scope.drop_all();
+            panic::resume_unwind(e)
+        }
+    }
 }
 
 impl fmt::Debug for Scope<'_> {
